@@ -73,6 +73,7 @@ func (r *ReceivedMessageReader[C]) loop(loopDone chan struct{}, readingMessages 
 			// loopDone is closed if it was replaced.
 			r.private.mutex.Lock()
 			readingMessages.Store(true)
+			verifYield(r, "relock-held")
 			r.private.mutex.Unlock()
 			verifYield(r, "relocked")
 			// If the loop was replaced while the message was being processed, loopDone is already closed
@@ -112,4 +113,5 @@ func (r *ReceivedMessageReader[C]) TryToReplaceLoop() {
 	r.private.readingMessages = readingMessages
 	verifYield(r, "replaced")
 	go r.loop(loopDone, readingMessages)
+	verifYield(r, "spawned")
 }
